@@ -1,9 +1,98 @@
 import PyamgV.Driver.Util
-/-! Driver ops for property C17 (line protocol). Op names are prefixed `c17_`. -/
+import PyamgV.Proofs.Ck
+import PyamgV.Proofs.Safe
+import PyamgV.Proofs.BfsCk
+import PyamgV.Proofs.SocCk
+import PyamgV.Model.C17Ck
+import PyamgV.Proofs.C17Safe3
+/-! Driver ops for property C17 (line protocol). Op names are prefixed `c17_`.
+Every op runs the *checked* (`Ck`) model of one kernel on exact rationals and prints the value
+(`.val`, compared with the real kernel) followed by `;ok` / `;fault` (the flag the safety theorems
+are about), or `nonterm` when a strided loop runs out of fuel. -/
 namespace PyamgV.Drv.C17
-open PyamgV PyamgV.Drv
+open PyamgV PyamgV.Drv PyamgV.Ck
+
+def absR (q : Rat) : Rat := if q < 0 then -q else q
+def maxR (a b : Rat) : Rat := if a < b then b else a
+/-- `std::numeric_limits<double>::min()` = 2^-1022 -/
+def tinyR : Rat := 1 / ((2 ^ 1022 : Nat) : Rat)
+
+def ckOps : Ck.Ops Rat := ⟨(· * ·), (· + ·), (· - ·), (· / ·), 0, fun q => q == 0⟩
+def kOps : C17.KOps Rat := ⟨(· * ·), (· + ·), (· - ·), (· / ·), 0, 1, fun q => q == 0, absR, maxR, tinyR, id⟩
+def socOps : SocCk.Ops Rat := ⟨absR, maxR, fun a b => decide (b ≤ a), (· * ·), tinyR⟩
+/-- `classical_strength_of_connection_min` is the same loop with `norm a = -a` and the running maximum started at 0 -/
+def socMinOps : SocCk.Ops Rat := ⟨fun a => -a, maxR, fun a b => decide (b ≤ a), (· * ·), 0⟩
+def symOps : C17.SymOps Rat := ⟨fun a => a * a, fun a b => decide (b ≤ a)⟩
+
+def mkG (n ap aj ax : String) : Ck.Csr Rat := ⟨nat n, parseInts ap, parseInts aj, parseRats ax⟩
+def flag (b : Bool) : String := if b then ";ok" else ";fault"
+def outR (r : Ck (Array Rat)) : String := showRats r.val ++ flag r.ok
+def outO (r : Option (Ck (Array Rat))) : String :=
+  match r with
+  | none => "nonterm"
+  | some r => outR r
+def outXT (r : Option (Ck (C17.XT Rat))) (both : Bool) : String :=
+  match r with
+  | none => "nonterm"
+  | some r => showRats r.val.1 ++ (if both then ";" ++ showRats r.val.2 else "") ++ flag r.ok
 
 def handle : List String → Option String
+  | ["c17_gs", n, ap, aj, ax, b, x, s0, s1, s2] =>
+    let G := mkG n ap aj ax
+    some <| outO (Ck.forStride (int s1) (int s2) (Ck.gsRow ckOps G (parseRats b)) (G.n + 1) (int s0) (pure (parseRats x)))
+  | ["c17_sor", om, n, ap, aj, ax, b, x, s0, s1, s2] =>
+    let G := mkG n ap aj ax
+    some <| outO (C17.sorSweep kOps (parseRat om) G (parseRats b) (int s0) (int s1) (int s2) (G.n + 1) (parseRats x))
+  | ["c17_jac", om, n, ap, aj, ax, b, x, temp, s0, s1, s2] =>
+    let G := mkG n ap aj ax
+    some <| outXT (C17.jacobi kOps (parseRats om) G (parseRats b) (int s0) (int s1) (int s2) (G.n + 1) (parseRats x) (parseRats temp)) false
+  | ["c17_jaci", om, n, ap, aj, ax, b, x, idx] =>
+    some <| outR (C17.jacobiIndexed kOps (parseRats om) (mkG n ap aj ax) (parseRats b) (parseInts idx) (parseRats x))
+  | ["c17_gsi", n, ap, aj, ax, b, x, idx, s0, s1, s2] =>
+    let Id := parseInts idx
+    some <| outO (C17.gsIndexed kOps (mkG n ap aj ax) (parseRats b) Id (int s0) (int s1) (int s2) (Id.size + 1) (parseRats x))
+  | ["c17_gsne", om, n, ap, aj, ax, b, x, dinv, s0, s1, s2] =>
+    let G := mkG n ap aj ax
+    some <| outO (C17.gsNe kOps (parseRat om) G (parseRats b) (parseRats dinv) (int s0) (int s1) (int s2) (G.n + 1) (parseRats x))
+  | ["c17_gsnr", om, n, ap, aj, ax, r, x, dinv, s0, s1, s2] =>
+    let G := mkG n ap aj ax
+    some <| outXT (C17.gsNr kOps (parseRat om) G (parseRats dinv) (int s0) (int s1) (int s2) (G.n + 1) (parseRats x) (parseRats r)) true
+  | ["c17_scalecols", n, ap, aj, ax, xx] =>
+    some <| outR (C17.scaleColumns kOps (mkG n ap aj ax) (parseRats xx))
+  | ["c17_scalerows", n, ap, aj, ax, xx] =>
+    some <| outR (C17.scaleRows kOps (mkG n ap aj ax) (parseRats xx))
+  | ["c17_maxrow", n, ap, aj, ax, x] =>
+    some <| outR (C17.maxRowValue kOps (mkG n ap aj ax) (parseRats x))
+  | ["c17_pass1", n, sp, sj, split, pp] =>
+    let r := C17.interpPass1 (nat n) (parseInts sp) (parseInts sj) (parseInts split) (parseInts pp)
+    some <| showInts r.val ++ flag r.ok
+  | ["c17_naive", n, ap, aj, x, y] =>
+    let r := C17.naiveAgg (nat n) (parseInts ap) (parseInts aj) (parseInts x) (parseInts y)
+    let k := (r.val.2.2 - 1).toNat
+    some <| showInts r.val.1 ++ ";" ++ showInts (r.val.2.1.extract 0 k) ++ ";" ++ toString k ++ flag r.ok
+  | ["c17_bfs", n, ap, aj, seed, order, level] =>
+    let G : BfsCk.Csr := ⟨nat n, parseInts ap, parseInts aj⟩
+    let r := BfsCk.bfs G (int seed) (parseInts order) (parseInts level) (G.n + 1)
+    let k := r.val.2.2.toNat
+    some <| showInts (r.val.1.extract 0 k) ++ ";" ++ showInts r.val.2.1 ++ flag r.ok
+  | ["c17_soc_abs", th, n, ap, aj, ax, sp, sj, sx] =>
+    let G : SocCk.Csr Rat := ⟨nat n, parseInts ap, parseInts aj, parseRats ax⟩
+    let r := SocCk.kernel socOps (parseRat th) G (parseInts sp) (parseInts sj) (parseRats sx)
+    let k := r.val.2.2.2.toNat
+    some <| showInts r.val.1 ++ ";" ++ showInts (r.val.2.1.extract 0 k) ++ ";" ++ showRats (r.val.2.2.1.extract 0 k) ++ flag r.ok
+  | ["c17_soc_min", th, n, ap, aj, ax, sp, sj, sx] =>
+    let G : SocCk.Csr Rat := ⟨nat n, parseInts ap, parseInts aj, parseRats ax⟩
+    let r := SocCk.kernel socMinOps (parseRat th) G (parseInts sp) (parseInts sj) (parseRats sx)
+    let k := r.val.2.2.2.toNat
+    some <| showInts r.val.1 ++ ";" ++ showInts (r.val.2.1.extract 0 k) ++ ";" ++ showRats (r.val.2.2.1.extract 0 k) ++ flag r.ok
+  | ["c17_symsoc", th, n, ap, aj, ax, sp, sj, sx] =>
+    let r := C17.symSoc kOps symOps (parseRat th) (mkG n ap aj ax) (parseInts sp) (parseInts sj) (parseRats sx)
+    let k := r.val.2.2.2.toNat
+    some <| showInts r.val.1 ++ ";" ++ showInts (r.val.2.1.extract 0 k) ++ ";" ++ showRats (r.val.2.2.1.extract 0 k) ++ flag r.ok
+  | ["c17_mis", n, ap, aj, act, c, f, x] =>
+    let G : Safe.Csr := ⟨nat n, parseNats ap, parseNats aj⟩
+    let r := Safe.misSerial G (int act) (int c) (int f) ⟨parseInts x, true⟩
+    some <| showInts r.x ++ flag r.ok
   | _ => none
 
 end PyamgV.Drv.C17
